@@ -6,7 +6,7 @@ Model: `M.balanced` (the stack loop of Pattern::new) and `M.altMatch`
 (alternate_match after the fix: expand the right-most '{', re-compile, recurse).
 Spec: parse trees `S.Seq` with `render`, `wf`, `expand` (Spec/Brace.lean).
 -/
-import PkgsrcVerif.Lemmas.Brace
+import PkgsrcVerif.Lemmas.BraceMatch
 open M S
 
 /-- a pattern containing a brace compiles iff the stack loop accepts it, and then as an
@@ -45,14 +45,34 @@ theorem C04_step_decreases (p first last : Str) (alts : List Str) (m : Str)
     countOpen (first ++ m ++ last) < countOpen p :=
   countOpen_subst h hm
 
-/-- The property at full strength (soundness and completeness of `alternate_match` w.r.t.
-    the csh expansion of the parse tree). Its semantic half is `C04_expand_subst`; the
-    textual half — that `rfind('{')`/`find('}')`/`split(',')`/`format!` compute
-    `last`/`subst` on `render t` — is stated here and checked by the correspondence
-    oracle on every run (exhaustive over all strings of length ≤ 5/7 over `{ } , a b`). -/
-def C04_sound_complete : Prop :=
-  ∀ (t : Seq) (n : Str), t.wf false = true → 0 < t.groups →
-    altMatch t.render n = t.expand.any (expansionMatches · n)
+/-- **The property at full strength** (soundness and completeness of `alternate_match`): for
+    every well-formed tree with at least one group — any nesting depth, any number of groups,
+    empty alternatives — and every name, the implementation's loop (`rfind('{')`, first '}',
+    `split(',')`, `format!`, re-compile, quick pre-filter, recurse) accepts the name exactly when
+    at least one string of the tree's csh expansion, taken as a pattern in its own right,
+    matches it.  Textual half: Lemmas/BraceText.lean (`splitLastBrace_render`,
+    `Seq.render_subst`, `Seq.subst_ok`); the pre-filter is shown inert
+    (`quick_of_expansion`); semantic half: `C04_expand_subst`. -/
+theorem C04_sound_complete (t : Seq) (n : Str) (hw : t.wf false = true) (hg : 0 < t.groups) :
+    altMatch t.render n = t.expand.any (expansionMatches · n) :=
+  L.altMatch_tree (t.groups - 1) t (by omega) hw n
+
+/-- … and therefore through the public entry point: the compiled pattern matches a name iff
+    the quick pre-filter passes and some expansion matches — where the pre-filter is implied
+    by the second conjunct -/
+theorem C04_pattern_matches (t : Seq) (n : Str) (hw : t.wf false = true) (hg : 0 < t.groups) (pat : Pattern)
+    (hp : patternNew t.render = .ok pat) :
+    patternMatches pat n = t.expand.any (expansionMatches · n) := by
+  have hnew := C04_tree_compiles t hw (by rw [L.render_has_open t hg]; rfl)
+  rw [hp] at hnew
+  injection hnew with hnew
+  subst hnew
+  simp only [patternMatches, beq_self_eq_true, if_true, C04_sound_complete t n hw hg]
+  cases hany : t.expand.any (expansionMatches · n) with
+  | false => simp
+  | true =>
+    obtain ⟨e, he, hx⟩ := List.any_eq_true.mp hany
+    simp [L.quick_of_expansion t e n he (L.expansionMatches_quick e n hx)]
 
 /-- non-vacuity: the tree of `{a{b,c},d}-1` is well formed, renders to that string and
     expands to exactly ab-1, ac-1, d-1 (so `ad-1` is not an expansion) -/
